@@ -159,6 +159,7 @@ theorem span_examples :
       ["a", "(", "Position", "<", "'e'", ",", "0.5", ",", "7", ">", ",", "3", ")", ";"].map (fun s => tokOf s.toList) := by
   decide +kernel
 
-example : NameOk "e_1 é".toList = true ∧ NameOk "it's".toList = false := by decide
+example : NameOk "e_1 é".toList = true ∧ NameOk "it's".toList = false ∧ NameOk "dir\\sub".toList = true ∧
+    NameOk "a\\\\b".toList = true ∧ NameOk "ends\\".toList = false := by decide +kernel
 
 end ESV.C18
